@@ -509,8 +509,12 @@ def run_real(case):
         N.deliver(srv, b'\0')
         mech = case['mech']
         should = None
+        # the hex encoding of initial responses and DATA payloads may use capital digits (hex is case-insensitive;
+        # what is INSIDE - the cookie digest - is compared as text and stays lower-case)
+        upper = len(repr(sorted(case.items()))) % 2 == 1
+        _hx = (lambda b: binascii.hexlify(b).upper()) if upper else binascii.hexlify
         if mech == 'ANONYMOUS':
-            r = _exchange(srv, b'AUTH ANONYMOUS' + (b' ' + binascii.hexlify(b'verif') if case.get('trace') else b''))
+            r = _exchange(srv, b'AUTH ANONYMOUS' + (b' ' + _hx(b'verif-Trace/1.0 [J]') if case.get('trace') else b''))
             should = True
         elif mech == 'EXTERNAL':
             uid = binascii.hexlify(str(os.getuid()).encode())
@@ -533,7 +537,7 @@ def run_real(case):
                     for cid_, t_ in lines[case['prefill']]:
                         f.write(b'%d %d %s\n' % (cid_, t_, binascii.hexlify(b'old-cookie-%d' % cid_)))
                 os.chmod(os.path.join(scratch, 'org_verif_ctx'), 0o600)
-            r = _exchange(srv, b'AUTH DBUS_COOKIE_SHA1 ' + binascii.hexlify(ident.encode()))
+            r = _exchange(srv, b'AUTH DBUS_COOKIE_SHA1 ' + _hx(ident.encode()))
             if not r or r[0][0] != 'DATA':
                 out.append(Disc('real.cookie.no-challenge', 'server answered %r' % (r,)))
                 return out
@@ -617,7 +621,7 @@ def run_real(case):
             if v == 'non-hex':
                 r = _exchange(srv, b'DATA zz')
             else:
-                r = _exchange(srv, b'DATA ' + binascii.hexlify(resp) if resp else b'DATA')
+                r = _exchange(srv, b'DATA ' + _hx(resp) if resp else b'DATA')
             if v != 'right' and _read_cookie(scratch, ctx, cid) is not None and not srv.transport.disconnected:
                 pass
         accepted = bool(r) and r[0][0] == 'OK'
